@@ -155,6 +155,9 @@ structure Ctx where
   skipList : Bool := false
   /-- emptyListItemWithBlankLines (list.go:20) -/
   emptyItemBlank : Bool := false
+  /-- `parseContext.refs` (parser.go:226): the link reference map, keys normalised by `util.ToLinkReference`, first
+      definition wins (only written by the link-reference paragraph transformer, GM.Model.LinkRef) -/
+  refs : List (Bytes × (Bytes × Option Bytes)) := []
   deriving Repr
 
 structure St where
